@@ -88,7 +88,9 @@ def enc_zerv(s, v):
 TEXTS = ["main", "feature/API-v2", "release/1.2", "Fix_007", "0051", "000", "0", "42", "4294967295", "4294967296", "18446744073709551616",
          "a.b..c", "--", "", "  ", "é", "fé/β", "ブランチ", "İx", "K", "a-0-00-0a", "UPPER.lower", "dev", "alpha", "post", "1.2.3", "v1",
          "deadbeefcafe1234", "0123456789abcdef", "g1234567", "x" * 40, "00000000", "1e5", "+5", "-5", "a+b", "rc.1", "0x1F", "１２",
-         "#42", "(7)", "42.", "-1", ".9", "7-", " 8 ", "\t3"]
+         "#42", "(7)", "42.", "-1", ".9", "7-", " 8 ", "\t3",
+         # branch names whose numeric segment does not fit u32 / u64 (timestamp-named release branches), under rule-like prefixes
+         "release/20251001120000", "feature/4294967296/login", "hotfix/99999999999999999999999", "release/4294967295", "release/00000000000000000000007"]
 
 
 def rand_text(rng):
